@@ -17,7 +17,8 @@ impl Display for Number {
         if self.radix == 16 {
             write!(f, "0x{:X}", self.value.0 as u64)?;
         } else {
-            write!(f, "{:.*}", self.precision, self.value.0)?;
+            // The formatting machinery rejects a precision above `u16::MAX` with a panic.
+            write!(f, "{:.*}", self.precision.min(u16::MAX as usize), self.value.0)?;
         }
 
         if let Some(suffix) = self.suffix {
